@@ -34,6 +34,8 @@ impl Guarded {
         let off = match place {
             "end" => 2 * PAGE - len,
             "start" => 0,
+            // the slice ends `align` bytes before the last mapped byte (an over-read of a few bytes past an UNALIGNED slice)
+            "endm" => 2 * PAGE - len - align,
             _ => 1024 + align,
         };
         let rw = self.rw();
@@ -77,6 +79,9 @@ impl<'a> Rec<'a> {
 
 fn places(len: usize, thorough: bool) -> Vec<(&'static str, usize)> {
     let mut v = vec![("end", 0usize), ("start", 0)];
+    for k in if thorough { (1..16).collect::<Vec<usize>>() } else { vec![1, 4, 7] } {
+        v.push(("endm", k));
+    }
     let aligns: Vec<usize> = if thorough { (0..64).collect() } else { vec![(len * 7 + 1) % 64, (len * 3 + 33) % 64] };
     for a in aligns {
         v.push(("mid", a));
@@ -251,7 +256,7 @@ pub fn child(out: &mut dyn std::io::Write, group: &str, seed: u64, thorough: boo
                 };
                 let reference0 = run(&key, &nonce, 0);
                 let reference1 = run(&key, &nonce, 1);
-                let mut pl: Vec<(&str, usize)> = vec![("start", 0), ("end", 0)];
+                let mut pl: Vec<(&str, usize)> = vec![("start", 0), ("end", 0), ("endm", 1), ("endm", 3), ("endm", 4), ("endm", 7)];
                 for a in if thorough { (0..32).collect::<Vec<usize>>() } else { vec![1, 4, 8, 12, 17] } {
                     pl.push(("mid", a));
                 }
@@ -262,7 +267,7 @@ pub fn child(out: &mut dyn std::io::Write, group: &str, seed: u64, thorough: boo
                     let (koff, ks) = g.place(place, klen, *align);
                     ks.copy_from_slice(&key);
                     // key and nonce at opposite ends, so that both "before the start" and "past the end" are unmapped for each
-                    let nplace = match *place { "start" => "end", "end" => "start", p => p };
+                    let nplace = match *place { "start" => "end", "end" | "endm" => "start", p => p };
                     let (noff, ns) = g2.place(nplace, nlen, *align);
                     ns.copy_from_slice(&nonce);
                     let (res, same) = {
